@@ -661,6 +661,9 @@ int main(int argc, char **argv) {
   }
   run_all();
   flush_counters();
+  if (S.i == 0 && g_stage == 2 && g_replay_hex.empty() && g_replay_ladder.empty()) {   // exact size of the pruned part of the space
+    Enum en; en.counting = true; enumerate_all(en); R.stats["pruned_after_crashing_single"] = en.npruned;
+  }
   for (auto &f : g_feats) printf("{\"type\":\"feature\",\"v\":\"%s\"}\n", vx::jesc(f).c_str());
   for (auto &b : g_good_bases) printf("{\"type\":\"good_base\",\"v\":\"%s\"}\n", vx::jesc(b).c_str());
   R.done();
